@@ -65,6 +65,32 @@ def from_docs(repo):
     return found
 
 
+def indent_configs(repo):
+    """documented indentation configurations: the `indent:` YAML examples of docs/*.rst plus, for the two use-clause
+    options of docs/configuring_use_clause_indenting.rst, the value forms its table lists (current, '+1')"""
+    import yaml
+
+    out = []
+    for path in sorted(glob.glob(os.path.join(repo, "docs", "*.rst"))):
+        text = open(path).read()
+        for m in re.finditer(r"\.\. code-block:: yaml\n\n((?:[ \t]+.*\n|\n)+)", text, re.I):
+            lines = m.group(1).split("\n")
+            ind = min((len(l) - len(l.lstrip()) for l in lines if l.strip()), default=0)
+            try:
+                d = yaml.safe_load("\n".join(l[ind:] for l in lines))
+            except Exception:
+                continue
+            if isinstance(d, dict) and isinstance(d.get("indent"), dict) and isinstance(d["indent"].get("tokens"), dict) and "group_name" not in d["indent"]["tokens"]:
+                if d not in out:
+                    out.append(d)
+    for a in ("current", "+1"):
+        for b in ("current", "+1"):
+            d = {"indent": {"tokens": {"use_clause": {"keyword": {"token_after_library_clause": a, "token_if_no_matching_library_clause": b}}}}}
+            if d not in out:
+                out.append(d)
+    return out
+
+
 def load():
     """-> dict(per_rule={rule id: [ {attr: value}, ... ]}, by_option={attr: [values]})"""
     path = os.path.join(vlib.BUILD, "options_%s.json" % vlib.tree_hash(("vsg", "docs", "tests")))
